@@ -680,6 +680,12 @@ class Engine:
             hook = getattr(self.reg, "value_attrs", {}).get((getattr(ty, "name", None), attr))
             if hook is not None:
                 return hook(self, st, base)
+            if ty == REAL and attr in ("days", "seconds"):
+                # a timedelta (seconds as a real): Python normalises to days = floor(total / 86400), 0 <= seconds < 86400
+                days = z3.ToInt(base.term / 86400)
+                if attr == "days":
+                    return Val(days, INT)
+                return Val(z3.ToInt(base.term - z3.ToReal(days) * 86400), INT)
             if isinstance(ty, Enum) and attr == "value":
                 return ops.enum_value(base)
             if isinstance(ty, Enum) and attr == "name":
